@@ -184,6 +184,18 @@ impl Reasoner {
                 }
             }
         }
+        // A consistent subset can be popped before one of its consistent supersets (the removal
+        // loop runs in hash order), and the check above only looks at repairs found earlier.
+        // Keep only the subset-maximal candidates, each once.
+        let candidates = std::mem::take(&mut repairs);
+        for candidate in &candidates {
+            let dominated = candidates
+                .iter()
+                .any(|other| other.len() > candidate.len() && other.is_superset(candidate));
+            if !dominated && !repairs.contains(candidate) {
+                repairs.push(candidate.clone());
+            }
+        }
         repairs
     }
 }
